@@ -199,6 +199,14 @@ func genRouterFamily(c *Ctx, filter func(string) bool) {
 		seen[k] = true
 		picks = append(picks, set)
 	}
+	// appended after the drawn sets (so that their numbering stays put): templates that
+	// share a variable at a non-last position under different parameter names
+	// - the route tree has to merge them into one variable child
+	distinctFrom := len(picks)
+	picks = append(picks,
+		[]rTemplate{T("a", "{}", "a"), T("a", "{}", "b")},
+		[]rTemplate{T("{}", "a"), T("{}", "b", ""), T("{}", "{}")},
+	)
 	for i, set := range picks {
 		name := fmt.Sprintf("r_%03d", i)
 		if filter != nil && !filter(name) {
@@ -207,7 +215,7 @@ func genRouterFamily(c *Ctx, filter func(string) bool) {
 		o := rSpecOpts{Templates: set, Base: baseForms[i%len(baseForms)], TypeStart: i, DeclOrder: i % 3}
 		for j := range set {
 			o.Methods = append(o.Methods, methodSets[(i+j)%len(methodSets)])
-			if c.Tier == "thorough" && i%5 == 4 {
+			if i%5 == 4 || i >= distinctFrom {
 				// different variable names at the same position across templates
 				o.VarNames = append(o.VarNames, [][]string{{"x", "y", "z"}, {"p", "q", "r"}, {"id", "kid", "uid"}, {"u", "v", "w"}}[j%4])
 			} else {
